@@ -14,6 +14,8 @@ from fractions import Fraction
 
 import numpy as np
 
+from pwlib.share import shcopy
+
 from pwlib.canon import flat
 from pwlib.engine import Case
 from pwlib.proto import Line, fhex
@@ -458,11 +460,11 @@ def make_polyline(spec):
     from polliwog import Polyline
     d = spec["decimals"]
     vs = polyline_vertices(spec)
-    V = np.array(vs, dtype=np.float64).reshape(-1, 3)
+    V = np.array(np.reshape(vs, (-1, 3)), dtype=np.float64)
     closed = bool(spec["closed"])
 
     def obj():
-        return Polyline(V.copy(), is_closed=closed)
+        return Polyline(shcopy(V), is_closed=closed)
 
     trivial = len(vs) == 0
     kl = "%s/%s/d=%s" % (spec["stream"], "empty" if trivial else ("closed" if closed else "open"), "default" if d is None else "given")
@@ -522,7 +524,7 @@ def make_plane(spec):
         return None
 
     def obj():
-        return Plane(R.copy(), N.copy())
+        return Plane(shcopy(R), shcopy(N))
 
     kw = {}
     if pd is not None:
@@ -640,12 +642,44 @@ def oracle_polyline(V, closed, d):
     out = []
     dv = DEFAULT_DECIMALS if d is None else d
     kw = {} if d is None else {"decimals": d}
-    p = Polyline(V.copy(), is_closed=closed)
+    p = Polyline(shcopy(V), is_closed=closed)
+    # twice on the same object: the caller owns the document it was handed and edits it before asking again
+    for attempt in (0, 1):
+        got = _oracle_polyline_once(p, V, closed, d, dv, kw, VE)
+        out += [(k, ("second serialize() after the caller edited the first document: " if attempt else "") + m) for k, m in got[0]]
+        if got[1] is None or out:
+            break
+        edit_document(got[1])
+    return dedupe(out)
+
+
+def edit_document(doc):
+    """in-place edits of a document the caller was handed (it is plain data and the caller's own)"""
+    if isinstance(doc, dict):
+        for k in list(doc):
+            v = doc[k]
+            if isinstance(v, bool):
+                doc[k] = not v
+            elif isinstance(v, list):
+                edit_document(v)
+                v.append([7.0, 7.0, 7.0])
+        doc["edited"] = True
+    elif isinstance(doc, list):
+        for i, v in enumerate(doc):
+            if isinstance(v, list):
+                edit_document(v)
+            elif isinstance(v, (int, float)) and not isinstance(v, bool):
+                doc[i] = v + 1.0
+
+
+def _oracle_polyline_once(p, V, closed, d, dv, kw, VE):
+    from polliwog import Polyline
+    out = []
     try:
         r = p.rounded(**kw)
         s = p.serialize(**kw)
     except Exception as e:
-        return [("polyline.rounded/total", "rounded/serialize raised %s(%s) for %d vertices, decimals=%s" % (type(e).__name__, e, len(V), d))]
+        return [("polyline.rounded/total", "rounded/serialize raised %s(%s) for %d vertices, decimals=%s" % (type(e).__name__, e, len(V), d))], None
     if r.is_closed is not closed or np.asarray(r.v).shape != V.shape:
         out.append(("polyline.rounded/shape-closedness", "rounded() changed closedness or shape: %s %s" % (r.is_closed, np.asarray(r.v).shape)))
     else:
@@ -654,8 +688,8 @@ def oracle_polyline(V, closed, d):
         out.append(("polyline.rounded/pure", "rounded()/serialize() modified the polyline"))
     if not plain_json(s):
         out.append(("polyline.serialize/plain-json", "serialize() returned non-JSON data: %r" % (s,)))
-        return dedupe(out)
-    if not (isinstance(s, dict) and s.get("isClosed") is closed and same_array(np.array(s.get("vertices"), dtype=np.float64).reshape(-1, 3), r.v)):
+        return dedupe(out), None
+    if not (isinstance(s, dict) and s.get("isClosed") is closed and same_array(np.array(np.reshape(s.get("vertices"), (-1, 3)), dtype=np.float64), r.v)):
         out.append(("polyline.serialize/content", "serialize() is not the rounded polyline under the schema's key names: %r" % (s,)))
     try:
         Polyline.validate(s)
@@ -670,7 +704,7 @@ def oracle_polyline(V, closed, d):
         if not (q.is_closed is r.is_closed and same_array(q.v, r.v) and np.asarray(q.v).dtype == np.float64):
             out.append((what, "deserialize(serialize()) differs from rounded(): %r %s vs %r %s" % (
                 np.asarray(q.v).tolist(), q.is_closed, np.asarray(r.v).tolist(), r.is_closed)))
-    return dedupe(out)
+    return dedupe(out), s
 
 
 def oracle_plane(R, N, pd, dd):
@@ -684,20 +718,33 @@ def oracle_plane(R, N, pd, dd):
         kw["position_decimals"] = pd
     if dd is not None:
         kw["direction_decimals"] = dd
-    p = Plane(R.copy(), N.copy())
+    p = Plane(shcopy(R), shcopy(N))
+    for attempt in (0, 1):
+        got = _oracle_plane_once(p, R, N, pd, dd, pdv, ddv, kw, VE)
+        out += [(k, ("second serialize() after the caller edited the first document: " if attempt else "") + m) for k, m in got[0]]
+        if not got[1] or out:
+            break
+        for doc in got[1]:
+            edit_document(doc)
+    return dedupe(out)
+
+
+def _oracle_plane_once(p, R, N, pd, dd, pdv, ddv, kw, VE):
+    from polliwog import Plane
+    out = []
     try:
         r = p.rounded(**kw)
         s = p.serialize(**kw)
     except Exception as e:
         return [("plane.rounded/total", "rounded/serialize(position_decimals=%s, direction_decimals=%s) raised %s(%s) for the unit normal %r" % (
-            pd, dd, type(e).__name__, e, N.tolist()))]
+            pd, dd, type(e).__name__, e, N.tolist()))], None
     rounding_violations(R, r.reference_point, pdv, "plane.rounded.position" if pd is not None else "plane.default-position-decimals", out)
     rounding_violations(N, r.normal, ddv, "plane.rounded.direction" if dd is not None else "plane.default-direction-decimals", out)
     if not (np.array_equal(p.reference_point, R) and np.array_equal(p.normal, N)):
         out.append(("plane.rounded/pure", "rounded()/serialize() modified the plane"))
     if not plain_json(s):
         out.append(("plane.serialize/plain-json", "serialize() returned non-JSON data: %r" % (s,)))
-        return dedupe(out)
+        return dedupe(out), None
     if not (isinstance(s, dict) and same_array(s.get("referencePoint"), r.reference_point) and same_array(s.get("unitNormal"), r.normal)):
         out.append(("plane.serialize/content", "serialize() is not the rounded plane under the schema's key names: %r" % (s,)))
     try:
@@ -710,7 +757,7 @@ def oracle_plane(R, N, pd, dd):
         r0 = p.rounded(**kd)
         s0 = p.serialize(**kd)
     except Exception as e:
-        return dedupe(out + [("plane.rounded/total", "rounded/serialize(%s) raised %s(%s) for the unit normal %r" % (kd, type(e).__name__, e, N.tolist()))])
+        return dedupe(out + [("plane.rounded/total", "rounded/serialize(%s) raised %s(%s) for the unit normal %r" % (kd, type(e).__name__, e, N.tolist()))]), None
     for what, data in (("plane.roundtrip/equal", s0), ("plane.roundtrip/json-text", json.loads(json.dumps(s0)))):
         try:
             q = Plane.deserialize(data)
@@ -720,7 +767,7 @@ def oracle_plane(R, N, pd, dd):
         if not (same_array(q.reference_point, r0.reference_point) and same_array(q.normal, r0.normal)):
             out.append((what, "deserialize(serialize()) differs from rounded(): %r %r vs %r %r" % (
                 np.asarray(q.reference_point).tolist(), np.asarray(q.normal).tolist(), r0.reference_point.tolist(), r0.normal.tolist())))
-    return dedupe(out)
+    return dedupe(out), [s, s0]
 
 
 def oracle_corrupt(cls, kind, doc, fault, expect_ok):
